@@ -67,8 +67,9 @@ class Contract(object):
     def __init__(self, target, params=None, cases=None, requires=(), ensures=(), raises=None,
                  raises_ensures=None, returns=None, assigns=(), loops=None, inline=(), specns=None,
                  prop=None, note='', pure=False, may_raise_any=False, trusted=False, exc_ensures=(),
-                 setup=None, model=None, raises_local=None, raises_only_if=None, heavy=False, ghost=None):
+                 setup=None, model=None, raises_local=None, raises_only_if=None, heavy=False, ghost=None, exc_fields=None):
         self.target = target
+        self.exc_fields = exc_fields or {}    # fields known of an exception raised by this function (callers)
         self.ghost = ghost or {}        # name -> spec expression evaluated (and frozen) at function entry
         self.heavy = heavy              # many paths: explore in parallel worker processes
         self.raises_only_if = raises_only_if or {}   # class -> pre-state condition implied by the raise
@@ -727,7 +728,10 @@ class Engine(object):
                 if ctx.nondet(2, 'raises ' + cls) == 1:
                     if cls in c.raises_only_if:
                         ctx.assume(self.eval_spec(ctx, sfr, c.raises_only_if[cls]))
-                    raise RaiseSig(self.fresh_exception(ctx, cls), node)
+                    ex = self.fresh_exception(ctx, cls)
+                    if isinstance(ex, VRef):
+                        ctx.heap[ex.rid].fields.update(c.exc_fields)
+                    raise RaiseSig(ex, node)
             else:
                 cz = self.eval_spec(ctx, sfr, cond)
                 if ctx.branch(cz):
